@@ -170,23 +170,37 @@ def harness_build():
     return rc == 0, out
 
 
-def _run_lines(binary, args, lines, timeout):
-    if not lines:
-        return []
+def _run_lines_once(binary, args, lines, timeout):
     data = "\n".join(lines) + "\n"
     try:
         p = subprocess.run([binary] + args, input=data, stdout=subprocess.PIPE, stderr=subprocess.PIPE,
                            text=True, timeout=timeout, env=env_offline())
-    except subprocess.TimeoutExpired:
-        return ["TIMEOUT"] * len(lines)
+    except subprocess.TimeoutExpired as ex:
+        out = (ex.stdout or b"")
+        out = out.decode("utf-8", "replace") if isinstance(out, bytes) else out
+        out = out.split("\n")
+        if out and out[-1] == "":
+            out.pop()
+        return out[:len(lines)], "TIMEOUT"
     out = p.stdout.split("\n")
     if out and out[-1] == "":
         out.pop()
-    if len(out) < len(lines):
-        # process died: mark the first unanswered case
-        tag = "CRASH(rc=%s)" % p.returncode
-        out = out + [tag] + ["NOT-RUN"] * (len(lines) - len(out) - 1)
-    return out[:len(lines)]
+    return out[:len(lines)], ("CRASH(rc=%s)" % p.returncode if len(out) < len(lines) else None)
+
+
+def _run_lines(binary, args, lines, timeout):
+    """one output line per input line; a case that kills the process is reported as CRASH/TIMEOUT
+    and the cases after it are re-run in a fresh process."""
+    res = []
+    rest = list(lines)
+    while rest:
+        out, died = _run_lines_once(binary, args, rest, timeout)
+        res.extend(out)
+        if died is None or len(out) >= len(rest):
+            break
+        res.append(died)
+        rest = rest[len(out) + 1:]
+    return res[:len(lines)] + ["NOT-RUN"] * max(0, len(lines) - len(res))
 
 
 def run_parallel(binary, args, lines, timeout=3600, workers=NCPU, chunk=None):
